@@ -388,6 +388,40 @@ theorem panic (s : State) (ev : Event) (e : Entry) (hm : firstMatch s.regs ev = 
 
 example : firstMatch (final init [.build .panic (fun _ => true)]).regs ⟨0, 1⟩ ≠ none := by decide
 
+/-! ## finding F-C20-1: a panicking reaction reached through the fs corruption hook aborts the process -/
+
+/-- The `Panic` clause on what the test can observe, including the environment the fs hook runs in:
+    "a Panic barrier panics the triggering code" (and `trigger_noop` on a `Suspend` barrier panics it, as documented) —
+    a panic, not the death of the process. -/
+def PanicClause (cfg : HookCfg) : Prop :=
+  ∀ (s : State) (ev : Event) (e : Entry) (viaHookWithFiles : Bool), firstMatch s.regs ev = some e →
+    (e.reaction = .panic → hookOutcome cfg viaHookWithFiles (step s (.triggerNoop ev)).2.res = .res .panicInjected) ∧
+    (e.reaction = .suspend → hookOutcome cfg viaHookWithFiles (step s (.triggerNoop ev)).2.res = .res .panicMisuse)
+
+/-- The unchanged code violates it: one `Panic` barrier on the corruption event, one corrupted read by code that
+    holds a file. -/
+theorem C20_witness_F_C20_1 : ¬ PanicClause faithfulHook := by
+  intro h
+  have := (h (final init [.build .panic (fun _ => true)]) ⟨2, 0⟩ _ true rfl).1 rfl
+  revert this; decide
+
+/-- Largest fragment that holds on the unchanged code: wherever the pattern does not apply (the trigger did not come
+    through the fs hook under open files, or the reaction does not panic) the outcome is exactly the barrier model's. -/
+theorem C20_partial (via : Bool) (r : Res) (hp : patHookPanicAborts via r = false) :
+    hookOutcome faithfulHook via r = .res r := by
+  simp [hookOutcome, hp]
+
+/-- With the drop path tolerating the poisoned mutex the clause holds at full strength. -/
+theorem C20_fixed : PanicClause fixedHook := by
+  intro s ev e via hm
+  have hp := panic s ev e hm
+  constructor
+  · intro hr; simp [hookOutcome, fixedHook, (hp.1 hr).2.1]
+  · intro hr; simp [hookOutcome, fixedHook, (hp.2 hr).1]
+
+example : patHookPanicAborts true .panicInjected = true ∧ patHookPanicAborts false .panicInjected = false ∧
+    patHookPanicAborts true .done = false := by decide
+
 /-! ## unmatched triggers -/
 
 /-- **C20 unmatched_immediate.** A trigger that matches no live barrier returns at once and changes nothing
